@@ -5,3 +5,5 @@ import Dtr.Props.C19
 #print axioms Dtr.C19_expansion_keeps_line
 #print axioms Dtr.C19_yield_keeps_line
 #print axioms Dtr.C19_data_row_line
+#print axioms Dtr.C19_tokens_count_newlines
+#print axioms Dtr.C19_source_line
